@@ -339,11 +339,15 @@ impl<F: PathFetcher> MultiPathManager<F> {
         let res = match try_path {
             Some(active) => Ok(active),
             None => {
+                #[cfg(feature = "verif-hooks")]
+                crate::verif::yield_point("p.before_ensure").await;
                 // Ensure paths are being managed
                 let path_set = self.ensure_managed_paths(src, dst);
 
                 // Try to get active path, possibly waiting for initialization/update
                 let active = path_set.active_path().await.as_ref().map(|p| p.0.clone());
+                #[cfg(feature = "verif-hooks")]
+                crate::verif::yield_point("p.after_active").await;
 
                 // Check active path after waiting
                 match active {
@@ -1417,6 +1421,90 @@ mod tests {
                     now,
                 ),
             )
+        }
+    }
+}
+
+/// Verification hooks (feature `verif-hooks`).
+#[cfg(feature = "verif-hooks")]
+#[allow(missing_docs)]
+pub mod verif_api {
+    use super::*;
+
+    pub struct PathSetProbe<F: PathFetcher> {
+        pub mgr: MultiPathManager<F>,
+        set: PathSet<F>,
+    }
+
+    #[derive(Debug, Clone)]
+    pub struct ProbeConfig {
+        pub max_cached: usize,
+        pub refetch_interval: Duration,
+        pub min_refetch_delay: Duration,
+        pub min_expiry_threshold: Duration,
+        pub backoff: BackoffConfig,
+        pub issue_cache_size: usize,
+        pub dedup_window: Duration,
+        pub swap_threshold: f32,
+    }
+
+    impl<F: PathFetcher> PathSetProbe<F> {
+        pub fn new(cfg: ProbeConfig, fetcher: F, mut strategy: PathStrategy, src: IsdAsn, dst: IsdAsn, now: SystemTime) -> Self {
+            strategy.scoring.use_default_scorers();
+            let config = MultiPathManagerConfig {
+                max_cached_paths_per_pair: cfg.max_cached,
+                refetch_interval: cfg.refetch_interval,
+                min_refetch_delay: cfg.min_refetch_delay,
+                min_expiry_threshold: cfg.min_expiry_threshold,
+                max_idle_period: Duration::from_secs(1_000_000),
+                fetch_failure_backoff: cfg.backoff,
+                issue_cache_size: cfg.issue_cache_size,
+                issue_broadcast_size: 16,
+                issue_deduplication_window: cfg.dedup_window,
+                path_swap_score_threshold: cfg.swap_threshold,
+            };
+            let mgr = MultiPathManager::new(config, fetcher, strategy).expect("valid config");
+            let rx = mgr.0.issue_manager.lock().unwrap().issues_subscriber();
+            let set = PathSet::new_with_time(src, dst, mgr.weak_ref(), config, rx, now);
+            Self { mgr, set }
+        }
+        pub async fn fetch_and_update(&mut self, now: SystemTime) {
+            let mgr = self.mgr.clone();
+            self.set.verif_fetch_and_update(now, &mgr).await
+        }
+        pub async fn maintain(&mut self, now: SystemTime) -> Option<&'static str> {
+            let mgr = self.mgr.clone();
+            self.set.maintain(now, &mgr).await
+        }
+        pub fn deliver_issues(&mut self, now: SystemTime) -> usize {
+            let mgr = self.mgr.clone();
+            let mut n = 0;
+            loop {
+                match self.set.internal.issue_rx.try_recv() {
+                    Ok(v) => { n += 1; self.set.handle_issue_rx(now, Ok(v), &mgr); }
+                    Err(_) => break,
+                }
+            }
+            n
+        }
+        pub fn next_maintain_at(&self) -> SystemTime {
+            std::cmp::min(self.set.internal.next_refetch, self.set.internal.next_idle_check)
+        }
+        pub fn active(&self) -> Option<ScionPath> {
+            pathset::PathSetHandle { shared: self.set.shared.clone() }.try_active_path().as_deref().map(|p| p.0.clone())
+        }
+        pub fn cached(&self, now: SystemTime) -> Vec<(sciparse::path::fingerprint::data_plane::DpPathFingerprint, Option<u32>, f32)> {
+            self.set.verif_cached(now)
+        }
+        pub fn issue_sizes(&self) -> (usize, usize) {
+            let g = self.mgr.0.issue_manager.lock().unwrap();
+            (g.cache.len(), g.fifo_issues.len())
+        }
+        pub fn report_scmp(&self, ts: SystemTime, e: ScmpErrorMessage) {
+            self.mgr.report_path_issue(ts, IssueKind::Scmp { error: e });
+        }
+        pub fn report_first_hop_down(&self, ts: SystemTime, isd_asn: IsdAsn, interface_id: u16) {
+            self.mgr.report_path_issue(ts, IssueKind::Socket { err: SendError::FirstHopUnreachable { isd_asn, interface_id, address: None, msg: "verif".into() } });
         }
     }
 }
